@@ -55,6 +55,7 @@ bool registered = false;
 extern "C" int LLVMFuzzerTestOneInput(const uint8_t *data, size_t size) {
     if (!registered) { registered = true; atexit(dump); }
     verif::Case c;
+    verif::case_environment(data, size);
     int v = verif_case(data, size, c);
     F.evaluations++;
     F.excluded_known += c.excluded_known;
